@@ -32,6 +32,8 @@
               write path of the Gfa wrote (c.outs).
      "hist"   C20: one custom tag through a sequence of set / delete / set(None) /
               set_datatype calls; a "val"-like record after every call.
+     "chist"  C19 / C20: one custom tag on a line AND on the copy the library made of it
+              (clone, multiply), calls on either, both observed after every call.
      "table"  one string representative of the C18 value-class table, judged
               by Lex.tla.                                                     *)
 EXTENDS Fields, Json, IOUtils, TLC
@@ -58,14 +60,14 @@ ProgInit(c) == Init0(LineLevelOf(c.lvl), c.conn, [n \in {c.f} |-> Field(c.dt, c.
 Matching(s, op, e) ==
   {o \in Step(s, op) : /\ o.res = e.res
                        /\ (op.k = "str" => o.mark = e.mark)
-                       /\ (op.k = "set" => (e.kept = "?" \/ o.chg = (e.kept = "F")))
+                       /\ (op.k \in {"set", "add"} => (e.kept = "?" \/ o.chg = (e.kept = "F")))
                        \* an outcome in which reading replaced the stored object needs that observation
                        /\ (op.k \in {"get", "str"} => (o.chg => e.kept = "F"))}
 \* the clause violated when no allowed outcome matches (s: a state consistent so far)
 ProgClause(s, op) ==
   LET L == s.o
       bad == Has(L, op.f) /\ IsInvalid(L.fields[op.f]) IN
-  CASE op.k = "set" -> IF op.c = "valid" THEN "C18.valid-rejected"
+  CASE op.k \in {"set", "add"} -> IF op.c = "valid" THEN "C18.valid-rejected"
                        ELSE IF L.lvl = 3 THEN "C18.level3-not-at-set"
                        \* below level 3: the invalid value was neither stored nor refused, so
                        \* nothing can report it any more
@@ -163,6 +165,12 @@ CloneVerdict(c) ==
   \cup (IF c.cl = "ok" /\ c.eq \in {"F", "Error"} THEN {"C19.not-equal"} ELSE {})
   \cup (IF c.cl = "ok" /\ detached /\ (c.isconn \in {"T", "Error"} \/ c.gfa \in {"some", "Error"})
         THEN {"C19.not-detached"} ELSE {})
+  \* Step copies the whole record of the line (level, every field with its datatype): everything
+  \* the two copies say about themselves -- record type, version, level, names of the positional
+  \* fields in order, tag names with their datatypes, datatypes declared for absent tags -- agrees
+  \* (c.o.meta, c.c.meta: the harness' rendering of these, compared as wholes)
+  \cup (IF c.cl = "ok" /\ o.st.c.lvl = o.st.o.lvl /\ o.st.c.fields = o.st.o.fields /\ c.c.meta # c.o.meta
+        THEN {"C19.metadata-differs"} ELSE {})
   \* the other direction of ==, and equality after reads of either copy (c.steps)
   \cup (IF c.cl = "ok" /\ c.eqr \in {"F", "Error"} THEN {"C19.not-equal"} ELSE {})
   \cup (IF c.cl = "ok" THEN CloneRun(c, 1, o.st) ELSE {})
@@ -316,6 +324,37 @@ HistAt(c, j, h) ==
   ELSE HistAt(c, j + 1, HStep(h, c.steps[j].op, c.steps[j].o.set = "Error", c.steps[j].o.dt))
 
 -----------------------------------------------------------------------------
+(* kind "chist": the history of one custom tag on TWO lines -- a line and the copy the library made
+   of it (clone, multiply).  The copy starts with the state of the original (Fields!HCopy); every
+   call acts on one of the two (st.tgt); after every call both are observed (st.oo, st.oc).  Each
+   line has its own Fields!HState, advanced by the calls on THAT line only: the untouched line
+   is judged as after a call that does nothing.  Step 1 is the copying itself.           *)
+HNoop == [k |-> "none", v |-> NoVal, t |-> "-"]
+ChistOp(st, who) == IF st.tgt = who THEN st.op ELSE HNoop
+ChistStepVerdict(lvl, H, st) ==
+  LET vo == HistStepVerdict(lvl, H.o, [op |-> ChistOp(st, "orig"), o |-> st.oo])
+      vc == HistStepVerdict(lvl, H.c, [op |-> ChistOp(st, "copy"), o |-> st.oc])
+      untouched == IF st.tgt = "orig" THEN vc ELSE vo
+      touched == IF st.tgt = "orig" THEN vo ELSE vc IN
+  vo \cup vc
+  \cup (IF untouched # {} /\ st.op.k # "none" THEN {"C19.shared-state"} ELSE {})
+  \cup (IF touched # {} \/ (untouched # {} /\ st.op.k = "none") THEN {"C19.copy-not-independent"} ELSE {})
+ChistNext(H, st) ==
+  HCopies(HStep(H.o, ChistOp(st, "orig"), st.oo.set = "Error", st.oo.dt),
+          HStep(H.c, ChistOp(st, "copy"), st.oc.set = "Error", st.oc.dt))
+RECURSIVE ChistRun(_, _, _)
+ChistRun(c, j, H) ==
+  IF j > Len(c.steps) THEN {}
+  ELSE LET v == ChistStepVerdict(c.lvl, H, c.steps[j]) IN
+       IF v # {} THEN v ELSE ChistRun(c, j + 1, ChistNext(H, c.steps[j]))
+RECURSIVE ChistAt(_, _, _)
+ChistAt(c, j, H) ==
+  IF j > Len(c.steps) THEN 0
+  ELSE IF ChistStepVerdict(c.lvl, H, c.steps[j]) # {} THEN j
+  ELSE ChistAt(c, j + 1, ChistNext(H, c.steps[j]))
+ChistInit(c) == HCopy(HState(c.init.present, c.init.dt, c.init.v))
+
+-----------------------------------------------------------------------------
 (* kind "table": the value-class table of the harness (string representatives of the C18
    fields) against the full grammar: a "valid" string must not be rejected by Lex.tla, an
    invalid one must not be accepted.                                          *)
@@ -335,9 +374,11 @@ Verdict(c) ==
     [] Kind = "gval" -> GvalVerdict(c)
     [] Kind = "table" -> TableVerdict(c)
     [] Kind = "hist" -> HistVerdict(c)
+    [] Kind = "chist" -> ChistRun(c, 1, ChistInit(c))
 Where(c) == IF Kind = "prog" THEN ProgAt(c, 1, {ProgInit(c)})
             ELSE IF Kind = "hist" THEN HistAt(c, 1, HState(c.init.present, c.init.dt, c.init.v))
             ELSE IF Kind = "gval" THEN GvalAt(c)
+            ELSE IF Kind = "chist" THEN ChistAt(c, 1, ChistInit(c))
             ELSE IF Kind = "clone" /\ c.cl = "ok" THEN CloneAt(c, 1, CloneState(c))
             ELSE 0
 
